@@ -39,7 +39,18 @@ def handleRt (j : Json) : Except String Json := do
     | .error _ => pure (Json.mkObj [("d1", jExcept jDMRS d1), ("m2", jExcept jMRS m2), ("hyp", hyp)])
     | .ok mm =>
       let d2 : Json := if mm.idsDistinct then jExcept jDMRS (fromMrs mm) else jErr "unmodelled"
-      pure (Json.mkObj [("d1", jExcept jDMRS d1), ("m2", jExcept jMRS m2), ("d2", d2), ("hyp", hyp)])
+      let agree : Bool := match m.representatives, mm.representatives with
+        | .ok r1, .ok r2 => repsPos m r1 == repsPos mm r2
+        | _, _ => false
+      let rstr : Bool := match m.representatives with
+        | .ok r1 => RstrLinked m r1
+        | _ => false
+      let hyp2 := Json.mkObj [
+        ("baseIdsNodup", Json.bool ((m.rels.map EP.baseId).eraseDups.length == m.rels.length)),
+        ("wf", Json.bool m.isWellFormed), ("ivprop", Json.bool m.hasIVProperty),
+        ("rolesOk", Json.bool (RolesOk m)), ("ivSorts", Json.bool (IVSorts m)),
+        ("rstrLinked", Json.bool rstr), ("repsAgree", Json.bool agree)]
+      pure (Json.mkObj [("d1", jExcept jDMRS d1), ("m2", jExcept jMRS m2), ("d2", d2), ("hyp", hyp2)])
 
 /-- `{"op":"from_dmrs","d":dmrs,"chosen":[…]}` → `from_dmrs(d)` -/
 def handleFromDmrs (j : Json) : Except String Json := do
